@@ -201,6 +201,14 @@ def messages(tier, seed):
         cls, msg = gen_hist.random_message(g, state, 100 + k)
         text = TJ.to_text(pretty(msg) if k % 2 else msg)
         out.append((f'random {cls} #{k}', text, TJ.to_text(state)))
+    # running-order documents are messages too (roCreate): inspect() lists the stories whatever their timing metadata says
+    gj = gen_hist.Gen(random.Random(seed * 29 + 3), corner_durations=True)
+    for k in range(12 if tier == 'quick' else 300):
+        out.append((f'running order document #{k}', TJ.to_text(gj.ro(1 + k % 4)), None))
+    for d in ('00:01:30', 'junk', 'nan', '', '5'):
+        for st_ in ('2021-03-04T09:00:00', 'tomorrow-ish', None):
+            doc = B.ro_doc([B.story('A', [B.item('a1')], md=B.timing_md(duration=d)), B.story('B', [])], message_id='1', ed_start=st_)
+            out.append((f'running order document, duration {d!r}, start {st_!r}', TJ.to_text(doc), None))
     frng = random.Random(seed * 23 + 1)
     for lbl, text, ro_text in list(out):
         if frng.random() < (0.4 if tier == 'quick' else 2.0):
